@@ -444,7 +444,7 @@ func runC15Race() {
 	if os.Getenv("VERIF_TIER") == "thorough" {
 		ms = "15000"
 	}
-	cmd := exec.Command(bin, "-test.run", "^(TestParallel|TestConcurrentShrinks)$", "-test.count", "1", "-test.timeout", "120s")
+	cmd := exec.Command(bin, "-test.run", "^(TestParallel|TestConcurrentShrinks|TestConcurrentExtends)$", "-test.count", "1", "-test.timeout", "120s")
 	cmd.Env = append(os.Environ(), "VERIF_RACE_MS="+ms, "GORACE=halt_on_error=0")
 	outb, err := cmd.CombinedOutput()
 	out := string(outb)
